@@ -29,7 +29,7 @@ def frames(rng):
 
 
 def make_pair(rng):
-    kind = rng.choice(['polygon', 'mesh', 'segment', 'ray', 'arc', 'polyline'])
+    kind = rng.choice(['polygon', 'mesh', 'mesh', 'segment', 'ray', 'arc', 'polyline', 'polyline'])
     fk, fr, o = frames(rng)
     pl = Plane(V3(fr[2]), P3(o), V3(fr[0]))
     emb = lambda p: P3(G.embed(fr, o, p))
@@ -38,6 +38,17 @@ def make_pair(rng):
         b = G.star_polygon(rng, n=rng.randint(3, 9), R=10.0)
         return kind, fk, pl, Polygon2D([P2(p) for p in b]), Face3D([emb(p) for p in b], pl)
     if kind == 'mesh':
+        if rng.random() < 0.3:
+            # a grid mesh made by the 2D factory (cell sizes that do and do not divide the extents) and its 3D image: per-face data of
+            # the 2D mesh is pre-seeded by the factory, the 3D sibling is built from the 2D mesh
+            cv = G.star_polygon(rng, n=rng.randint(4, 7), R=5.0, center=(0.0, 0.0))
+            ext = min(max(p[0] for p in cv) - min(p[0] for p in cv), max(p[1] for p in cv) - min(p[1] for p in cv))
+            xd = G.dy(ext / rng.choice([2.3, 3.0, 3.7, 5.2])); yd = rng.choice([xd, G.dy(xd * 0.75)])
+            try:
+                m2 = Mesh2D.from_polygon_grid(Polygon2D([P2(p) for p in cv]), xd, yd)
+                return kind, fk, pl, m2, Mesh3D.from_mesh2d(m2, pl)
+            except AssertionError:
+                pass
         if rng.random() < 0.25:
             # several faces on one edge (a non-manifold fan; the faces overlap in the plane, which the mesh classes allow)
             k = rng.randint(3, 6)
@@ -59,6 +70,16 @@ def make_pair(rng):
         # the 2D arc is centred at c, the 3D arc lives in a plane whose origin is the embedded centre
         return kind, fk, Plane(V3(fr[2]), P3(o), V3(fr[0])), Arc2D(P2(c), r, a1, a2), Arc3D(pla, r, a1, a2)
     pts = G.star_polygon(rng, n=rng.randint(4, 8), R=10.0)[:-1]
+    if rng.random() < 0.5:
+        # extra vertices exactly on several of the edges (dyadic interpolation), separated by genuine corners
+        dec = []
+        for i in range(len(pts) - 1):
+            a_, b_ = pts[i], pts[i + 1]
+            dec.append(a_)
+            for t in sorted(rng.sample([1, 2, 3, 4, 5, 6, 7], rng.choice([0, 1, 1, 2]))):
+                dec.append((a_[0] + (b_[0] - a_[0]) * t / 8.0, a_[1] + (b_[1] - a_[1]) * t / 8.0))
+        dec.append(pts[-1])
+        pts = dec
     return kind, fk, pl, Polyline2D([P2(p) for p in pts]), Polyline3D([emb(p) for p in pts])
 
 
@@ -136,6 +157,13 @@ def fam_pairs(ctx, rng):
             cls = 'quad' if kind == 'mesh' and any(len(f) == 4 for f in a.faces) else ''
             ctx.violation('%s:%s%s' % (kind, name, ':' + cls if cls else ''), '2D %s vs 3D %s' % (short(va), short(vb)), dict(desc, member=name))
     if kind == 'mesh':
+        # each sibling's face centroids are the vertex means of its own faces (also when a factory pre-seeded them)
+        for tag, m in (('2d', a), ('3d', b)):
+            for f, c in zip(m.faces, m.face_centroids):
+                mean = [sum(m.vertices[i][k] for i in f) / len(f) for k in range(len(tuple(c)))]
+                if max(abs(x - y) for x, y in zip(mean, tuple(c))) > 1e-8 * scale:
+                    ctx.violation('mesh:face_centroids:%s:own_vertices' % tag, 'a face centroid %r is not the mean %r of the face vertices' % (c, mean), desc)
+                    break
         for nm in ('naked_edges', 'internal_edges', 'non_manifold_edges', 'edges'):
             la, lb = len(getattr(a, nm)), len(getattr(b, nm))
             ctx.count('pair.mesh', key=(fk, nm))
@@ -213,6 +241,8 @@ def fam_pairs(ctx, rng):
             ctx.count('pair.polyline', key=(fk, nm))
             if len(ra.vertices) != len(rb.vertices):
                 ctx.violation('polyline:%s' % nm, '%d vertices in 2D, %d in 3D' % (len(ra.vertices), len(rb.vertices)), desc)
+            elif not agree(to2(pl, list(ra.vertices)), to2(pl, list(rb.vertices)), scale):
+                ctx.violation('polyline:%s:vertices' % nm, 'the siblings keep different vertices: 2D %s vs 3D %s' % (short(ra.vertices), short(rb.vertices)), desc)
     if kind == 'polygon':
         # the same loop with extra vertices placed off-centre on its edges at a perpendicular offset below the tolerance:
         # both siblings must keep / drop the same vertices
